@@ -536,10 +536,10 @@ func (c *Ctx) Finish(explanation string, assumptions []string) int {
 	for _, v := range undec {
 		fmt.Printf("  UNDECIDED: %s [%s] at %s: %s\n", v.Rule, v.Key, v.Pos, v.Msg)
 	}
-	if len(c.fatal) > 0 {
-		for _, f := range c.fatal {
-			fmt.Printf("ERROR: %s\n", f)
-		}
+	for _, f := range c.fatal {
+		fmt.Printf("ERROR: %s\n", f)
+	}
+	if len(c.fatal) > 0 && len(viol) == 0 {
 		return 2
 	}
 	if len(viol) > 0 {
